@@ -203,6 +203,7 @@ pub fn run_ops<R: SeekRdr<Src = Source>>(spec: &RunSpec) -> Trace {
             grows_after,
         });
     }
+    src_log.borrow_mut().bad_policy = shared.bad_answer.get();
     let slot_caps = slots.iter().map(|s| R::set_buf_capacity(s)).collect();
     Trace { steps, src: src_log, pol_logs, pol_installed_at, slot_caps }
 }
@@ -232,6 +233,7 @@ pub struct StrictStats {
     pub positions_checked: u32,
     pub terminal_reported: bool,
     pub error_after_batch: bool,
+    pub buffer_limits: u32,
 }
 
 fn show(o: &Out) -> String {
@@ -240,6 +242,12 @@ fn show(o: &Out) -> String {
 
 /// The cursor model of DESIGN.md §3.5. `check_positions`: also check `position()`.
 pub fn check_strict(m: &Model, t: &Trace, check_positions: bool) -> Result<StrictStats, Failure> {
+    check_strict_opt(m, t, check_positions, false)
+}
+
+/// `tolerate_limit`: a call that returns `BufferLimit` is a no-op for the cursor (the refused record is still
+/// unread); valid for histories without exact-count reads, where nothing is gathered before the refusal.
+pub fn check_strict_opt(m: &Model, t: &Trace, check_positions: bool, tolerate_limit: bool) -> Result<StrictStats, Failure> {
     let fmt = match m.format {
         Format::Fasta => "fasta",
         Format::Fastq => "fastq",
@@ -274,6 +282,18 @@ pub fn check_strict(m: &Model, t: &Trace, check_positions: bool) -> Result<Stric
             Ev::Set { n: Some(_), .. } => Some(3),
             _ => None,
         };
+        if tolerate_limit {
+            let limited = match &s.ev {
+                Ev::Rec(o) | Ev::OwnedRec(o) => *o == Out::Err(NErr::BufferLimit),
+                Ev::Set { res, .. } => *res == SetOut::Err(NErr::BufferLimit),
+                _ => false,
+            };
+            if limited {
+                st.buffer_limits += 1;
+                prev_slots = s.slots_after.clone();
+                continue;
+            }
+        }
         if let Some(k) = kind_idx {
             kinds[k] = true;
             if after_seek {
@@ -790,6 +810,12 @@ pub fn check_genuine(fmt: &str, recs: &[NRec], seek_floor: &dyn Fn(u64) -> Optio
 }
 
 pub fn livelock_check(fmt: &str, t: &Trace) -> CheckResult {
+    if let Some((cur, ans)) = t.src.borrow().bad_policy {
+        return Err(Failure::new(
+            format!("{}/policy-answer-{}", fmt, if ans <= cur { "does-not-grow" } else { "absurdly-large" }),
+            format!("the growth policy answered grow_to({}) = {}: the harness refused instead of passing it on", cur, ans),
+        ));
+    }
     if t.src.borrow().budget_exceeded {
         return Err(Failure::new(
             format!("{}/livelock-step-budget", fmt),
